@@ -130,3 +130,35 @@ Theorem dry_run_commands_no_effect : forall e ao v pl,
   snd (run_entry (entry_facts e) ao v pl) = [].
 Proof. exact dry_run_commands_no_effect_lemma. Qed.
 Print Assumptions dry_run_commands_no_effect.
+
+(* Stored vs. in-memory configuration.  apply_config that ENABLES append-only, with a storage fault
+   at any of its config writes (order of set_config / save_config and of the cold / hot write
+   regenerated from commands/config.rs): whenever the stored cold config ends up append-only, the
+   handle that ran the command holds an append-only config too ... *)
+Theorem failed_enable_handle_tracks_store : forall f s,
+  let s' := config_step config_set_before_save config_cold_before_hot f true s in
+  c_cold s' = true -> c_handle s' = true.
+Proof. exact failed_enable_handle_tracks_store_lemma. Qed.
+Print Assumptions failed_enable_handle_tracks_store.
+
+(* ... and therefore keeps refusing every guarded entry point, before any effect. *)
+Theorem failed_enable_still_refuses : forall f s e v pl g,
+  let s' := config_step config_set_before_save config_cold_before_hot f true s in
+  c_cold s' = true -> is_hotcold e = false ->
+  f_guard (entry_facts e) = Some g -> forallb (holds v) g = true ->
+  run_entry (entry_facts e) (c_handle s') v pl = (Refused, []).
+Proof. exact failed_enable_still_refuses_lemma. Qed.
+Print Assumptions failed_enable_still_refuses.
+
+(* Full strength would be: for every change, stored append-only implies handle append-only.
+     forall f new s, c_handle s = c_cold s -> c_cold (config_step .. f new s) = true -> c_handle (..) = true
+   This is refuted by the code as it is (set_config before save_config): DISABLING append-only with
+   a fault at the first write leaves the store append-only and the handle not (known finding
+   config-disable-failed-handle-unlocked, replayed on the real code by the check). *)
+Theorem failed_disable_unlocks_handle_refuted :
+  config_set_before_save = true ->
+  exists f s, c_handle s = c_cold s /\ c_hot s = c_cold s /\
+    let s' := config_step config_set_before_save config_cold_before_hot f false s in
+    c_cold s' = true /\ c_handle s' = false.
+Proof. exact failed_disable_unlocks_handle_refuted_lemma. Qed.
+Print Assumptions failed_disable_unlocks_handle_refuted.
